@@ -115,3 +115,18 @@ Print Assumptions C07_cascade_noncancellable.
 Theorem C07_cascade_needs_exit_broadcast_refuted : lost_consumer_without_exit_broadcast.
 Proof. exact cascade_needs_exit_broadcast. Qed.
 Print Assumptions C07_cascade_needs_exit_broadcast_refuted.
+
+(* The capacity must be re-read at every re-check (seeded change C07-ind3-1 hoisted `dq.tracker.cap()` out of
+   waitPushAfter's loop): for a deque built with QueueOptions cap() is the dynamic soft quota.  The code's waiter,
+   whose predicate reads cap() from the current data, is never parked while there is room ... *)
+Theorem C07_deque_reread_capacity :
+  forall prog d0 hl ok s t f v, deque_prog prog -> reach ddata prog d0 hl ok s ->
+    prog t = OWaiter (waitpush_w f v) -> thr s t = Parked -> has_room (d_trk (dat s)) = false.
+Proof. exact deque_reread_capacity_ok. Qed.
+Print Assumptions C07_deque_reread_capacity.
+
+(* ... while the variant that captures cap() when the call starts is refuted: a quiescent state of a race-free run in
+   which it is parked although cap() > len() and the deque is open. *)
+Theorem C07_deque_captured_capacity_refuted : captured_capacity_stuck.
+Proof. exact deque_captured_capacity_refuted. Qed.
+Print Assumptions C07_deque_captured_capacity_refuted.
